@@ -571,6 +571,8 @@ func runC01(c *Ctx) {
 }
 
 var c01Canaries = []Canary{
+	{Name: "r4-same-size-shortcut", ExpectKey: "C01.R11", Edits: []Edit{{File: "lfs/gitfilter_smudge.go", Find: "\t\tif ptr.Size == 0 && stat.Size() == 0 {", Repl: "\t\tif stat.Size() == ptr.Size {"}}},
+	{Name: "r4-untyped-grace-period", ExpectKey: "C01.R12", Edits: []Edit{{File: "fs/cleanup.go", Find: "\t\tif time.Since(info.ModTime()) > time.Hour {", Repl: "\t\tif time.Since(info.ModTime()) > 3600 {"}}},
 	{Name: "second-hasher", ExpectKey: "C01.R1", Edits: []Edit{{File: "lfs/gitfilter_clean.go", Find: "	oid = hex.EncodeToString(oidHash.Sum(nil))", Repl: "	oid = hex.EncodeToString(sha256.New().Sum(nil))"}}},
 	{Name: "write-tmp-directly", ExpectKey: "C01.R1#copyToTemp:tee", Edits: []Edit{{File: "lfs/gitfilter_clean.go", Find: "	size, err = tools.CopyWithCallback(writer, from, fileSize, cb)", Repl: "	_ = writer\n	size, err = tools.CopyWithCallback(tmp, from, fileSize, cb)"}}},
 	{Name: "size-from-hint", ExpectKey: "C01.R2", Edits: []Edit{{File: "lfs/gitfilter_clean.go", Find: "	pointer := NewPointer(oid, size, exts)", Repl: "	if fileSize > 0 {\n		size = fileSize\n	}\n	pointer := NewPointer(oid, size, exts)"}}},
